@@ -219,11 +219,69 @@ func emit(run *vh.Run, h appdrv.History) {
 	run.AddCase(id, appdrv.CaseCoq(id, h, rs, a), h, fmt.Sprint(h.Calls), acc >= 1 && eons >= 1)
 }
 
+// exhaustive enumerates every sequence of the given depth over a 10-letter governance
+// alphabet (three keypers, threshold two, two candidate configs, failure / success reports,
+// a block-seen report, a check-in and a replay of the first transaction), each as one block.
+func exhaustive(run *vh.Run, u *appdrv.Universe) {
+	depth := 3
+	if run.Thorough {
+		depth = 4
+	}
+	g := appdrv.Genesis{Threshold: 2, ChainID: "verif-chain", ForkNil: true, Validators: []appdrv.KV{{K: make([]byte, 32), P: 10}}}
+	for i := 0; i < 3; i++ {
+		g.Keypers = append(g.Keypers, u.Addrs[i].Bytes())
+	}
+	c1 := shmsg.NewBatchConfig(0, u.Addrs[:3], 2, 1)
+	c2 := shmsg.NewBatchConfig(1, u.Addrs[1:4], 1, 1)
+	type letter struct {
+		key  int
+		msg  *shmsg.Message
+		name string
+	}
+	ck := &shmsg.Message{Payload: &shmsg.Message_CheckIn{CheckIn: &shmsg.CheckIn{ValidatorPublicKey: u.ValKeys[1], EncryptionPublicKey: u.EncKeys[1]}}}
+	alpha := []letter{
+		{0, c1, "vote c1 k0"}, {1, c1, "vote c1 k1"}, {0, c2, "vote c2 k0"}, {2, c2, "vote c2 k2"},
+		{0, shmsg.NewDKGResult(1, false), "dkg fail k0"}, {1, shmsg.NewDKGResult(1, false), "dkg fail k1"}, {2, shmsg.NewDKGResult(1, true), "dkg ok k2"},
+		{0, shmsg.NewBlockSeen(1), "blockseen k0"}, {1, ck, "checkin k1"}, {-1, nil, "replay first"},
+	}
+	total := 1
+	for i := 0; i < depth; i++ {
+		total *= len(alpha)
+	}
+	for code := 0; code < total; code++ {
+		h := appdrv.History{Genesis: g}
+		h.Calls = append(h.Calls, appdrv.Call{Kind: "begin", Height: 1})
+		x := code
+		var first []byte
+		for i := 0; i < depth; i++ {
+			l := alpha[x%len(alpha)]
+			x /= len(alpha)
+			var raw []byte
+			if l.key < 0 {
+				if first == nil {
+					raw = []byte("AAAA")
+				} else {
+					raw = first
+				}
+			} else {
+				raw = appdrv.SignTx(u.Keys[l.key], g.ChainID, uint64(1000+i), l.msg)
+			}
+			if first == nil {
+				first = raw
+			}
+			h.Calls = append(h.Calls, appdrv.Call{Kind: "deliver", Tx: raw, Note: l.name})
+		}
+		h.Calls = append(h.Calls, appdrv.Call{Kind: "end", Height: 1}, appdrv.Call{Kind: "commit"})
+		emit(run, h)
+	}
+	run.Dist[fmt.Sprintf("exhaustive_depth_%d_histories", depth)] = total
+}
+
 func main() {
 	run := vh.Start("Verif.Corr.C11", 40)
 	run.SetPreamble("From Verif Require Import Model.Powermap Model.App Corr.App.\nOpen Scope N_scope.")
 	defer run.Finish()
-	run.Rule = "ABCI histories generated online (config votes over 3 candidate configs incl. integer-boundary thresholds, block-seen reports, DKG results, check-ins, malformed stream); the governance reference of the driver is evaluated on every response; non-trivial = at least one config acceptance and one eon start; distinct by call list"
+	run.Rule = "every sequence of depth 3 (quick) / 4 (thorough) over a 10-letter governance alphabet, then ABCI histories generated online (config votes over 3 candidate configs incl. integer-boundary thresholds, block-seen reports, DKG results, check-ins, malformed stream); the governance reference of the driver is evaluated on every response; non-trivial = at least one config acceptance and one eon start; distinct by call list"
 	u := appdrv.NewUniverse(8)
 	if run.Replay != "" {
 		var h appdrv.History
@@ -241,6 +299,7 @@ func main() {
 		}
 		run.Replay = ""
 	}
+	exhaustive(run, u)
 	n := run.Scale(350, 8000)
 	for i := 0; i < n; i++ {
 		g := &appdrv.Gen{U: u, R: run.RNG.Fork(), Weird: i%3 == 0}
